@@ -689,6 +689,31 @@ def secrets_only_reloads(ctx, info):
                             for v in pools[ci])
                 meta.append({"cfg": ci, "secret": secret.decode(), "expect": 202 if valid else 401})
         scen.append({"name": "secrets-only-%d" % oi, "configs": [text(p_) for p_ in pools], "steps": steps, "_meta": meta})
+    # reloads that change only the TOLERANCE of the route (10m -> 1m -> 10m -> 30s): a fresh, correctly signed request whose timestamp lies
+    # outside the tolerance in force is refused - whatever window the route had before the reload
+    tol_cfgs = ["10m", "1m", "30s"]
+
+    def tol_text(tol):
+        return G.PRELUDE + G.route_block("/hooks", G.hmac_block(secrets=["raw:k1"], tolerance=tol)) + G.route_block("/other")
+    tol_ns = {"10m": 600 * SEC_, "1m": 60 * SEC_, "30s": 30 * SEC_}
+    steps, meta = [], []
+    now = t
+    n = 0
+    for ci in (0, 1, 0, 2, 1, 0):
+        steps.append({"op": "load", "cfg": ci})
+        meta.append(None)
+        for age in (5, 45, 90, 300, 599, 601, -45, -300):       # seconds between the signed timestamp and the clock
+            n += 1
+            now += SEC_
+            signed = now // SEC_ - age
+            body = b'{"t":%d}' % n
+            sig = G.sign(b"k1", str(signed), "POST", "/hooks", body)
+            hs = [(names[0], sig), (names[1], str(signed)), (names[2], "tol-%d" % n)]
+            steps.append({"op": "req", "now": now, "wire": G.b64(G.wire("POST", "/hooks", hs, body))})
+            inside = abs(now - signed * SEC_) <= tol_ns[tol_cfgs[ci]]
+            meta.append({"cfg": ci, "secret": "k1 (signed %d s %s the clock, tolerance %s)" % (abs(age), "before" if age >= 0 else "after", tol_cfgs[ci]),
+                         "expect": 202 if inside else 401})
+    scen.append({"name": "tolerance-only-reloads", "configs": [tol_text(x) for x in tol_cfgs], "steps": steps, "_meta": meta})
     rc, out, err = C.harness_run(info["hbin"], ["auth-run"], {"dir": os.path.join(ctx.scratch, "c08reload"),
                                                             "scenarios": [{k: v for k, v in s_.items() if not k.startswith("_")} for s_ in scen]})
     if rc != 0:
